@@ -114,6 +114,7 @@ def parseOp (ws : List String) : Option Op :=
       | _, _ => none
   | ["cb", i] => (natOf i maxId).map .cb
   | ["bs", i] => (natOf i maxId).map .bs
+  | ["bt", i] => (natOf i maxId).map .bs     -- a real blocked thread: the same awaiter, put in the chain by `future::sync()`
   | ["bw", i] => (natOf i maxId).map .bw
   | ["del", i] => (natOf i maxId).map .del
   | ["co", j, h, b, sc] =>
